@@ -1,0 +1,10 @@
+//go:build verif
+
+package main
+
+// Contracts for the verification machinery in /verif (comment-only file; compiled
+// only with -tags verif and adds no code).
+
+//@ func ti/cmd/rbs2json.convertArguments
+//@   witnessgo order:loop0.commute:var:args#0 u := RBSType{Class: "class_instance", Name: "Integer"}; ft := RBSFuncType{RequiredKeywords: map[string]RBSParam{"a": {Type: &u}, "b": {Type: &u}, "c": {Type: &u}, "d": {Type: &u}}}; seen := map[string]bool{}; for i := 0; i < 80; i++ { seen[fmt.Sprint(convertArguments(ft, typeAliasMap{}, "X"))] = true }; violated = len(seen) > 1
+//@   witnessgo order:loop1.commute:var:args#0 u := RBSType{Class: "class_instance", Name: "Integer"}; ft := RBSFuncType{OptionalKeywords: map[string]RBSParam{"a": {Type: &u}, "b": {Type: &u}, "c": {Type: &u}, "d": {Type: &u}}}; seen := map[string]bool{}; for i := 0; i < 80; i++ { seen[fmt.Sprint(convertArguments(ft, typeAliasMap{}, "X"))] = true }; violated = len(seen) > 1
